@@ -111,6 +111,58 @@ InferCode(t) ==
             @@ (IF r.order = <<>> THEN <<>> ELSE [propertyOrder |-> DedupLast(r.order)])
             @@ (IF r.req = <<>> THEN <<>> ELSE [required |-> r.req])
 
+
+\* ---------------------------------------------------------------- options (C16)
+\* L0 for ForOptions: IgnoreInvalidTypes (ign) and TypeSchemas (ts: struct name -> schema).
+\* Result: [err |-> TRUE] (an error), [drop |-> TRUE] (ignored: no schema), or [s |-> schema].
+\*   unsupported kinds: an error, or with ign dropped - a struct field of a dropped type is
+\*   omitted, a slice/array/map/pointer of a dropped type is itself dropped
+\*   a type that contains itself (k = "rec" marks the back edge): an error, never a hang
+\*   a TypeSchemas entry is substituted (cloned) wherever its type occurs; a pointer to it
+\*   adds null to whatever type restriction the entry has (none: nothing to add)
+\*   an embedded struct with an entry contributes the entry's properties (sorted, not required)
+RECURSIVE SortNames(_)
+SortNames(S) == IF S = {} THEN <<>>
+                ELSE LET m == CHOOSE x \in S : \A y \in S : StrOrd[x] <= StrOrd[y] IN <<m>> \o SortNames(S \ {m})
+IErr == [err |-> TRUE]
+IDrop == [drop |-> TRUE]
+IOk(x) == [s |-> x]
+IsOk(r) == "s" \in DOMAIN r
+RECURSIVE InferOpt(_, _, _)
+InferOpt(t, ign, ts) ==
+  CASE t.k = "bad" -> IF ign THEN IDrop ELSE IErr
+    [] t.k = "rec" -> IErr
+    [] t.k = "named" -> InferOpt(t.e, ign, ts)
+    [] t.k = "ptr" -> LET r == InferOpt(t.e, ign, ts) IN IF IsOk(r) THEN IOk(AddNull(r.s)) ELSE r
+    [] t.k = "slice" -> LET r == InferOpt(t.e, ign, ts)
+                        IN IF IsOk(r) THEN IOk([types |-> <<"null", "array">>, items |-> r.s]) ELSE r
+    [] t.k = "array" -> LET r == InferOpt(t.e, ign, ts)
+                        IN IF IsOk(r) THEN IOk([type |-> "array", items |-> r.s, minItems |-> t.n, maxItems |-> t.n]) ELSE r
+    [] t.k = "map" -> LET r == InferOpt(t.e, ign, ts)
+                      IN IF IsOk(r) THEN IOk([type |-> "object", additionalProperties |-> r.s]) ELSE r
+    [] t.k = "struct" ->
+         IF t.name \in DOMAIN ts THEN IOk(ts[t.name])
+         ELSE LET fs == EncFields(t)
+                  \* embedded structs that have an entry: their properties replace the promoted fields
+                  ovr == {i \in DOMAIN t.fields : IsEmbeddedStruct(t.fields[i]) /\ t.fields[i].t.name \in DOMAIN ts}
+                  plain == SelectSeq(fs, LAMBDA c : ~(\E i \in ovr : c.idx[1] = i))
+                  rs == [i \in DOMAIN plain |-> InferOpt(plain[i].f.t, ign, ts)]
+                  kept == SelectSeq([i \in DOMAIN plain |-> i], LAMBDA i : IsOk(rs[i]))
+                  ovrNames(i) == SortNames(DOMAIN ts[t.fields[i].t.name].properties)
+                  \* order: declaration order, an overridden embedded field stands where it is declared
+                  slot(c) == c.idx[1]
+                  names == [i \in DOMAIN kept |-> plain[kept[i]].name]
+                  req == SelectSeq(kept, LAMBDA i : ~Optional(plain[i].f))
+              IN IF \E i \in DOMAIN plain : "err" \in DOMAIN rs[i] THEN IErr
+                 ELSE LET props == [nm \in {plain[kept[i]].name : i \in DOMAIN kept} |->
+                                      rs[CHOOSE i \in DOMAIN plain : IsOk(rs[i]) /\ plain[i].name = nm].s]
+                          oprops == UNION {{<<nm, ts[t.fields[i].t.name].properties[nm]>> : nm \in DOMAIN ts[t.fields[i].t.name].properties} : i \in ovr}
+                          allp == [nm \in DOMAIN props \cup {p[1] : p \in oprops} |->
+                                     IF nm \in DOMAIN props THEN props[nm] ELSE (CHOOSE p \in oprops : p[1] = nm)[2]]
+                      IN IOk([type |-> "object", additionalProperties |-> [not |-> EmptyFcn], properties |-> allp]
+                             @@ (IF req = <<>> THEN <<>> ELSE [required |-> [i \in DOMAIN req |-> plain[req[i]].name]]))
+    [] OTHER -> IOk(InferSpec(t))
+
 \* the part of an inferred schema that matters to the evaluator
 RECURSIVE Strip(_)
 Strip(s) ==
